@@ -179,6 +179,9 @@ def Txn2.created (t : Txn2) : List (Kind × Id) :=
 def Txn2.claims (pool : Cur) (t : Txn2) : Nat :=
   (t.sfIns.map (fun i => claimVal pool i.parent.claimStart i.parent.value)).sum
 
+/-- siafund tax collected by a v2 transaction (formations and renewals) -/
+def Txn2.taxes (t : Txn2) : Nat := (t.fcs.map (fun x => x.2.1.val / 25)).sum + (t.ress.map resTax).sum
+
 /-- value forfeited by the missed-expiration resolutions of a v2 transaction -/
 def Txn2.forfeits (t : Txn2) : Nat :=
   (t.ress.map (fun r => match r.res with
@@ -241,7 +244,8 @@ theorem v2txn_conserves {T} {ms ms' : Mid} {t : Txn2} {mw : Nat} {R : List (Kind
     (hv : validateV2Transaction ms t mw = .ok ()) (ha : applyV2Transaction ms t = .ok ms') :
     Inv T ms' ∧ Fresh T ms' R ∧ ms'.base = ms.base ∧
     Phi ms' + t.fee + t.forfeits = Phi ms + t.claims ms.pool ∧ sfTot ms' = sfTot ms ∧ ms.pool ≤ ms'.pool ∧
-    (CsOk ms → CsOk ms' ∧ Psi ms' + 10000 * t.claims ms.pool ≤ Psi ms + (ms'.pool - ms.pool) * sfTot ms) := by
+    (CsOk ms → CsOk ms' ∧ Psi ms' + 10000 * t.claims ms.pool ≤ Psi ms + (ms'.pool - ms.pool) * sfTot ms) ∧
+    ms'.pool = ms.pool + t.taxes := by
   obtain ⟨hv1, hv2, hv3⟩ := validateV2Transaction_ok hv
   obtain ⟨hsc, hscn, hbal⟩ := validateV2Siacoins_ok hv1
   obtain ⟨hsf, hsfn, hsfbal⟩ := validateV2Siafunds_ok hv2
@@ -357,7 +361,7 @@ theorem v2txn_conserves {T} {ms ms' : Mid} {t : Txn2} {mw : Nat} {R : List (Kind
     have h3 : (t.sfIns.map (·.parent.value)).sum = (t.sfOuts.map (·.2.1)).sum := h1.symm.trans (hsfbal.trans h2)
     have : sfTot ms3 + (t.sfIns.map (·.parent.value)).sum = sfTot ms := by rw [← e1S, ← e2S]; exact e3S
     omega
-  refine ⟨r7.inv.scalars f1 f2 f3 f4 f5 f6 f7, ?_, f1.trans hb7, ?_, ?_, ?_, ?_⟩
+  refine ⟨r7.inv.scalars f1 f2 f3 f4 f5 f6 f7, ?_, f1.trans hb7, ?_, ?_, ?_, ?_, ?_⟩
   · exact F7.agree (agree_scalars f1 f2 f3 f4 f5 f6 f7 (fun _ => False)) (fun _ _ h => h)
   · rw [Phi_scalars f1 f4 f6 f7 f8]
     have hrs := ress_sums t.ress (fun r hr => by
@@ -409,5 +413,7 @@ theorem v2txn_conserves {T} {ms ms' : Mid} {t : Txn2} {mw : Nat} {R : List (Kind
     simp only [Nat.zero_mul, Nat.add_zero] at q2 ⊢
     clear hv hv1 hv2 hv3 a1 a2 a3 a4 a5 a6 a7 hF F1 F2 F3 F4 F5 F6 F7 e3W e4W hbal hsfbal
     omega
+  · unfold Txn2.taxes
+    rw [f8, e7p, e6p, e5p, e4p, e3p, e2p, e1p]; exact Nat.add_assoc _ _ _
 
 end Sia.Ledger
